@@ -9,6 +9,11 @@ pub fn div_want_from_log(n: u32, es: u32, a: u32, b: u32) -> Outcome {
     let (sa, ea, ma) = r::dec(n, es, a);
     let (sb, eb, mb) = r::dec(n, es, b);
     let (nn, dd, q, rem, calls) = unsafe { (crate::stubs::DIV_N, crate::stubs::DIV_D, crate::stubs::DIV_Q, crate::stubs::DIV_R, crate::stubs::DIV_CALLS) };
+    if calls == 0 && ma == mb {
+        // no integer division was needed: equal significands, the quotient is exactly 2^(ea-eb)
+        let want = r::with_sign(n, sa ^ sb, r::enc64(n, es, ea - eb, 1u64 << 63, false));
+        return Outcome { skipped: false, ok: true, got: [0; 8], want: [want as u64, 0, 0, 0, 0, 0, 0, 0], words: 1 };
+    }
     if calls != 1 || nn == 0 || dd == 0 || q == 0 {
         return Outcome::cond(false);
     }
